@@ -35,7 +35,9 @@ def items(ctx):
             cq = rng.choice([0.5, 0.8, [0.5, 0.25]])
             qv = cq[0] if isinstance(cq, list) else cq
             import numpy as _np
-            if _np.quantile(_np.array(D, dtype=float), qv) > 0:       # a target at distance 0 is not satisfiable
+            # a target at distance 0 is not satisfiable; exponential / gaussian / reverse define the result anyway
+            # (a derived scale of 0 is replaced by 1), the reciprocal transform does not
+            if _np.quantile(_np.array(D, dtype=float), qv) > 0 or m != "reciprocal":
                 calls.append({"kind": "d2s", "method": m, "cq": cq})
         calls.append({"kind": "d2s", "method": "reciprocal", "r": [1, 1], "a": rng.choice([[1, 2], [2, 1], [3, 1]])})
         for m in ("logistic", "gaussian", "exponential"):
